@@ -382,6 +382,16 @@ class _LocalDateTimePatternParser(_IPatternParser[LocalDateTime]):
         if len(pattern) == 1:
             match pattern:
                 # Invariant standard patterns return cached implementations.
+                case "o" | "O" | "R" | "s" | "S" if self.__template_value_date.calendar.id != "ISO":
+                    return parse_no_standard_expansion(
+                        {
+                            "o": "uuuu'-'MM'-'dd'T'HH':'mm':'ss'.'fffffff",
+                            "O": "uuuu'-'MM'-'dd'T'HH':'mm':'ss'.'fffffff",
+                            "R": "uuuu'-'MM'-'dd'T'HH':'mm':'ss'.'fffffffff",
+                            "s": "uuuu'-'MM'-'dd'T'HH':'mm':'ss",
+                            "S": "uuuu'-'MM'-'dd'T'HH':'mm':'ss;FFFFFFFFF",
+                        }[pattern]
+                    )
                 case "o" | "O":
                     return LocalDateTimePattern._Patterns._bcl_round_trip_pattern_impl
                 case "r":
